@@ -588,3 +588,29 @@ package core
 //@   ensures [returns-that-character] old(len(k.buf)) == 0 && old(inpos()) < len(instream()) && instream()[old(inpos())] < 128 && 0 <= instream()[old(inpos())] ==> result0 == instream()[old(inpos())]
 //@   ensures [returns-buffered-character] old(len(k.buf)) > 0 && old(k.buf[0]) < 128 ==> result0 == old(k.buf[0])
 //@   ensures [abort-when-input-ends] old(inpos()) >= len(instream()) ==> result1
+
+// ---------------------------------------------------------------------------------------
+// Word motions (C06: movements never edit)
+
+//@ fntype Tokenizer
+//@   assumed the three tokenizers of Line (Tokenize, TokenizeSpace, TokenizeBlock) only read the line; when they return tokens the index designates one of them
+//@   pure
+//@   ensures len(split) > 0 ==> 0 <= index && index < len(split)
+
+//@ func (*Line).Forward
+//@   props C06 C01
+//@   terminates
+//@   requires l != nil && tokenizer != nil
+//@   pure
+
+//@ func (*Line).ForwardEnd
+//@   props C06 C01
+//@   terminates
+//@   requires l != nil && tokenizer != nil
+//@   pure
+
+//@ func (*Line).Backward
+//@   props C06 C01
+//@   terminates
+//@   requires l != nil && tokenizer != nil
+//@   pure
